@@ -40,6 +40,7 @@ KINDS = ["pass", "drop", "dup", "twice", "expand", "dropall", "hold", "rev", "de
 # `apply` stage of a graph; it is drained once per registration (first drain ends the collection phase, later
 # drains release what the applying stages hold).  Covered by the global-store engine model (Props/C03G.lean).
 KINDS_G = KINDS + ["collect", "apply"]
+SIMPLE = ("pass", "drop", "dup", "twice", "expand", "dropall", "hold", "rev", "delay", "gen")
 
 
 # ---------------------------------------------------------------------------------------------
@@ -117,7 +118,13 @@ def run_real(kinds, inp, shared=False, off=()):
                 r += self.h
                 self.h = []
             if self.kind == "gen":
-                r.append(_mk_event(9000))      # an event synthesized at drain time
+                g = _mk_event(9000)            # an event synthesized at drain time
+                nxt = self.idx + 1
+                if len(inp) % 2 == 1 and not shared and nxt < len(kinds) and nxt not in off and kinds[nxt] in SIMPLE:
+                    # ... as a record that the NEXT stage completes (no `ts` yet): the entry check of the pipeline
+                    # applies to input events, not to what a context releases
+                    g.pop("ts", None)
+                r.append(g)
             emis[self.idx] += [e["args"]["id"] for e in r]
             return r
 
@@ -128,6 +135,7 @@ def run_real(kinds, inp, shared=False, off=()):
             x = event["args"]["id"]
             log.append((i, x))
             guard(len(log))
+            event.setdefault("ts", 5.0)        # completes a record that was released without a time stamp
             if kind == "pass":
                 r = [event]
             elif kind == "drop":
